@@ -246,8 +246,10 @@ pub fn bye_owned(s: &ByeSpec) -> ByeBuilder<'static> {
         b = pr(b.add_source(*x));
     }
     match &s.reason {
-        Some(r) => b.reason_owned(r.clone()),
-        None => b.reason_owned(String::new()).reason_owned(String::new()),
+        // junk first, then the configured text: the last call wins
+        Some(r) => b.reason_owned(String::from("overwritten")).reason_owned(r.clone()),
+        // a reason that was never set is never set on this path either
+        None => b,
     }
 }
 
@@ -697,15 +699,141 @@ fn bits_string(bits: &[bool]) -> String {
 
 /// `MacroBlockEntry { start: 1, count: 2, picture_id: 3 }` -> (1, 2, 3); the derived Debug is the
 /// only public view of an SLI entry.
-pub fn parse_sli_debug(s: &str) -> Option<(u16, u16, u8)> {
+/// How an SLI entry can be read. `MacroBlockEntry` has no accessors; its only public views are
+/// `Debug` and `PartialEq`. The Debug text is not part of any contract (a hand-written impl with
+/// other field names, another order or hex output is legitimate), so the layout is *calibrated* at
+/// first use: two reference-encoded words with known, distinct field values are parsed with the
+/// crate and the positions (and radix) at which the three values appear among the integer literals
+/// of the Debug text are recorded. If that fails the view is `Opaque`: entries are then compared by
+/// their Debug text with the Debug text of the crate-parsed reference word for the expected values
+/// (all a user could do as well).
+#[derive(Clone, Debug)]
+pub enum SliView {
+    /// the derived Debug of today's `MacroBlockEntry { start, count, picture_id }`: read by field name, which
+    /// does not depend on the decoder being right (a decoding bug must not be able to blind the view)
+    Named,
+    /// another layout: token index of (first, number, picture id) among the integer literals, calibrated
+    Fields([usize; 3]),
+    Opaque,
+}
+
+fn sli_by_name(s: &str) -> Option<(u16, u16, u8)> {
     let num_after = |key: &str| -> Option<u64> {
         let at = s.find(key)? + key.len();
-        let rest = &s[at..];
-        let rest = rest.trim_start_matches(|c: char| c == ':' || c == ' ');
+        let rest = s[at..].trim_start_matches(|c: char| c == ':' || c == ' ');
         let digits: String = rest.chars().take_while(|c| c.is_ascii_digit()).collect();
         digits.parse().ok()
     };
     Some((num_after("start")? as u16, num_after("count")? as u16, num_after("picture_id")? as u8))
+}
+
+fn int_tokens(s: &str) -> Vec<u64> {
+    let b = s.as_bytes();
+    let mut out = Vec::new();
+    let mut i = 0;
+    while i < b.len() {
+        if b[i].is_ascii_digit() && (i == 0 || !(b[i - 1].is_ascii_alphanumeric() || b[i - 1] == b'_')) {
+            if b[i] == b'0' && i + 1 < b.len() && (b[i + 1] == b'x' || b[i + 1] == b'X') {
+                let mut j = i + 2;
+                while j < b.len() && (b[j].is_ascii_hexdigit() || b[j] == b'_') {
+                    j += 1;
+                }
+                let t: String = s[i + 2..j].chars().filter(|c| *c != '_').collect();
+                if let Ok(v) = u64::from_str_radix(&t, 16) {
+                    out.push(v);
+                }
+                i = j;
+            } else {
+                let mut j = i;
+                while j < b.len() && (b[j].is_ascii_digit() || b[j] == b'_') {
+                    j += 1;
+                }
+                let t: String = s[i..j].chars().filter(|c| *c != '_').collect();
+                if let Ok(v) = t.parse::<u64>() {
+                    out.push(v);
+                }
+                i = j;
+            }
+        } else {
+            i += 1;
+        }
+    }
+    out
+}
+
+fn sli_word(a: u16, n: u16, p: u8) -> [u8; 4] {
+    (((a as u32 & 0x1fff) << 19) | ((n as u32 & 0x1fff) << 6) | (p as u32 & 0x3f)).to_be_bytes()
+}
+
+/// Debug text of the entry the crate decodes from the reference word for (a, n, p)
+fn sli_debug_of(a: u16, n: u16, p: u8) -> Option<String> {
+    let w = sli_word(a, n, p);
+    guard(|| <Sli as FciParser>::parse(&w).ok().and_then(|s| s.lost_macroblocks().next().map(|e| format!("{e:?}")))).ok().flatten()
+}
+
+pub fn sli_view() -> &'static SliView {
+    static V: std::sync::OnceLock<SliView> = std::sync::OnceLock::new();
+    V.get_or_init(|| {
+        let cal = [(0x1234u16, 0x0987u16, 0x25u8), (0x0abc, 0x1def, 0x3a), (7, 11, 13)];
+        if let Some(d) = sli_debug_of(cal[0].0, cal[0].1, cal[0].2) {
+            if d.contains("start:") && d.contains("count:") && d.contains("picture_id:") && sli_by_name(&d).is_some() {
+                return SliView::Named;
+            }
+        }
+        let mut layout: Option<[usize; 3]> = None;
+        for (a, n, p) in cal {
+            let toks = match sli_debug_of(a, n, p) {
+                Some(d) => int_tokens(&d),
+                None => return SliView::Opaque,
+            };
+            let find = |v: u64| -> Option<usize> {
+                let hits: Vec<usize> = toks.iter().enumerate().filter(|(_, t)| **t == v).map(|(i, _)| i).collect();
+                if hits.len() == 1 {
+                    Some(hits[0])
+                } else {
+                    None
+                }
+            };
+            let here = match (find(a as u64), find(n as u64), find(p as u64)) {
+                (Some(x), Some(y), Some(z)) => [x, y, z],
+                _ => return SliView::Opaque,
+            };
+            match layout {
+                None => layout = Some(here),
+                Some(l) if l == here => {}
+                Some(_) => return SliView::Opaque,
+            }
+        }
+        layout.map(SliView::Fields).unwrap_or(SliView::Opaque)
+    })
+}
+
+/// the (first, number, picture id) of an entry, when the calibrated view can read them
+pub fn parse_sli_debug(s: &str) -> Option<(u16, u16, u8)> {
+    match sli_view() {
+        SliView::Named => sli_by_name(s),
+        SliView::Fields(ix) => {
+            let t = int_tokens(s);
+            Some((*t.get(ix[0])? as u16, *t.get(ix[1])? as u16, *t.get(ix[2])? as u8))
+        }
+        SliView::Opaque => None,
+    }
+}
+
+/// an observed entry as a comparable value
+pub fn sli_observed(dbg: &str) -> Value {
+    match parse_sli_debug(dbg) {
+        Some((a, n, p)) => json!([a, n, p]),
+        None => json!({ "debug": dbg }),
+    }
+}
+
+/// the value `sli_observed` yields for an entry that holds exactly (a, n, p)
+pub fn sli_expected(a: u16, n: u16, p: u8) -> Value {
+    match sli_view() {
+        SliView::Named | SliView::Fields(_) => json!([a, n, p]),
+        SliView::Opaque => json!({ "debug": sli_debug_of(a, n, p).unwrap_or_default() }),
+    }
 }
 
 fn perr(e: &RtcpParseError) -> Value {
@@ -745,13 +873,7 @@ pub fn pfb_fci_value(fb: &PayloadFeedback) -> Result<Value, Failure> {
                 Ok(s) => {
                     let v: Vec<String> =
                         no_panic("Sli::lost_macroblocks", || s.lost_macroblocks().take(1 << 21).map(|e| format!("{e:?}")).collect())?;
-                    let mut out = Vec::new();
-                    for e in v {
-                        match parse_sli_debug(&e) {
-                            Some((a, n, p)) => out.push(json!([a, n, p])),
-                            None => out.push(json!({ "unparsed_debug": e })),
-                        }
-                    }
+                    let out: Vec<Value> = v.iter().map(|e| sli_observed(e)).collect();
                     Ok(json!({ "sli": out }))
                 }
                 Err(e) => Ok(perr(&e)),
@@ -962,7 +1084,7 @@ pub fn expected_observation(p: &PacketSpec) -> Value {
             let fci = match &s.fci {
                 FciSpec::Nack(_) => json!({ "nack": s.fci.nack_set().unwrap().into_iter().collect::<Vec<u16>>() }),
                 FciSpec::Pli => json!("pli"),
-                FciSpec::Sli(v) => json!({ "sli": v.iter().map(|(a, n, p)| json!([a, n, p])).collect::<Vec<_>>() }),
+                FciSpec::Sli(v) => json!({ "sli": v.iter().map(|(a, n, p)| sli_expected(*a, *n, *p)).collect::<Vec<_>>() }),
                 FciSpec::Rpsi { pt, data, overrun } => {
                     let bits = bits_of(data, *overrun as usize).unwrap_or_default();
                     json!({ "rpsi": { "pt": pt, "bits": bits_string(&bits) } })
